@@ -18,8 +18,9 @@ RULE = ("lattice: n x objective {sepquad, coupquad, recip, linear} x constraint 
         "x bounds kind x move kind {scalar, persignal, pervar} x MMA version {1987, 2007} x asymptote setting; one "
         "case = one complete minimize_mma run (maxit 60, tolx 1e-7), every iteration is a state at which all "
         "invariants are evaluated. Family members whose optimum has a free variable with stationary objective "
-        "('unbalanced': MMA 2-cycles there and the inner Newton solver runs into its cap, seconds per call) are run on "
-        "the declared sub-lattice only and are cut off after the first sub-problem call that reports the cap. A run "
+        "('unbalanced': MMA 2-cycles there and the inner Newton solver keeps running into its cap, seconds per call) "
+        "are run on the declared sub-lattice only; any run is cut off after the first sub-problem call that reports "
+        "the cap or fails the KKT bound (all iterations up to and including that call are judged). A run "
         "is non-trivial if it has >= 3 iterations and starts farther than 1e-3 (normalised) from the reference "
         "optimum; distinct by the full descriptor")
 ASSUMPTIONS = [
